@@ -1,7 +1,11 @@
 """C16 — compiler processes are bounded by the job-token pool and tokens never leak."""
 import itertools
 import os
+import shutil
+import signal
+import socket
 import subprocess
+import time
 
 from .. import pipeline, sx
 from ..pipeline import Leg
@@ -10,7 +14,8 @@ ID = 'C16'
 HARNESS_BIN = 'c16'
 RUN_MODULE = 'Run.C16'
 REPO_BINS = ['sccache']
-THEOREMS = ['C16_conservation', 'C16_bound', 'C16_bound_live', 'C16_no_leak', 'C16_no_leak_quiescent',
+THEOREMS = ['C16_conservation', 'C16_bound', 'C16_bound_live', 'C16_no_leak', 'C16_no_leak_cancelled_waiter',
+            'C16_no_leak_quiescent',
             'C16_full_parallelism_restored', 'C16_fifo', 'C16_never_stuck', 'C16_progress']
 ASSUMPTIONS = [
     'PARTIAL: the `jobserver` crate\'s pipe is a counter of tokens (a read takes one, a write returns one); read errors on '
@@ -300,7 +305,7 @@ def monitor_mt(case, out):
         b.feed(e, 'event %d' % n)
     vs = list(b.vs)
     if stuck:
-        vs.append('a request that was never cancelled did not obtain a token within 60 s (token leaked or hand-off stuck)')
+        vs.append('a request that was never cancelled did not obtain a token within the deadline (token leaked or hand-off stuck)')
     ids = [r[0] for r in reqs]
     for r in ids:
         if r not in b.requested:
@@ -352,16 +357,21 @@ def nontrivial_mt(case, out):
 
 def shrink_mt(case):
     k, w, reqs = case
-    for i in range(len(reqs)):
+    n = len(reqs)
+    if n > 3:
+        yield [k, w, reqs[n // 2:]]
+        yield [k, w, reqs[:n // 2]]
+    for i in range(min(n, 14)):
         yield [k, w, reqs[:i] + reqs[i + 1:]]
 
 
 def neighbours_mt(case):
     k, w, reqs = case
     for ww in (1, 2, 4):
-        yield [k, ww, reqs]
-    for i, r in enumerate(reqs):
-        for c in (0, 1, 500, 5000):
+        if ww != w:
+            yield [k, ww, reqs]
+    for i, r in enumerate(reqs[:12]):
+        for c in (0, 500):
             if c != r[4]:
                 yield [k, w, reqs[:i] + [r[:4] + [c]] + reqs[i + 1:]]
 
@@ -393,3 +403,269 @@ def legs(tier):
                  'monitors on the real run: held <= k at every event, FIFO grants, FIONREAD == k at quiescence, a burst of k '
                  'acquisitions is granted and the k+1-th waits until a release'),
     ]
+
+
+# ---------------------------------------------------------------- e2e: real server, wrapper compiler, ledger
+
+WRAPPER = r"""#!/bin/sh
+# C16 wrapper "compiler": records enter/leave of every compiler / preprocessor process the server runs.
+L="%(ledger)s"
+K=C
+for a in "$@"; do [ "$a" = "-E" ] && K=E; done
+flock "$L.lock" sh -c "echo E $$ $K >> $L"
+sleep "${C16_SLEEP:-0.05}"
+/usr/bin/gcc "$@"
+rc=$?
+flock "$L.lock" sh -c "echo L $$ $K >> $L"
+exit $rc
+"""
+
+
+def free_port():
+    s = socket.socket()
+    s.bind(('127.0.0.1', 0))
+    p = s.getsockname()[1]
+    s.close()
+    return p
+
+
+def server_pids(cache_dir):
+    want = ('SCCACHE_DIR=' + cache_dir).encode()
+    out = []
+    for d in os.listdir('/proc'):
+        if not d.isdigit():
+            continue
+        try:
+            env = open('/proc/%s/environ' % d, 'rb').read().split(b'\0')
+            if want not in env or b'SCCACHE_START_SERVER=1' not in env:
+                continue
+            st = open('/proc/%s/stat' % d).read()
+            if st[st.rindex(')') + 2] == 'Z':
+                continue
+            out.append(int(d))
+        except (OSError, ValueError):
+            continue
+    return out
+
+
+def read_ledger(path):
+    """-> (max concurrency, entered, left, max by kind)"""
+    cur = 0
+    mx = 0
+    ent = lef = 0
+    live = {}
+    kinds_at_max = ''
+    try:
+        lines = open(path).read().split('\n')
+    except OSError:
+        lines = []
+    for l in lines:
+        f = l.split()
+        if len(f) != 3:
+            continue
+        if f[0] == 'E':
+            cur += 1
+            ent += 1
+            live[f[1]] = f[2]
+            if cur > mx:
+                mx = cur
+                kinds_at_max = ''.join(sorted(live.values()))
+        elif f[0] == 'L':
+            cur -= 1
+            lef += 1
+            live.pop(f[1], None)
+    return mx, ent, lef, kinds_at_max
+
+
+def e2e_run(rep, binp, rng, tier, idx):
+    root = '/dev/shm/c16e2e-%d-%d' % (os.getpid(), idx)
+    shutil.rmtree(root, ignore_errors=True)
+    os.makedirs(root)
+    ledger = os.path.join(root, 'ledger')
+    open(ledger, 'w').close()
+    cc = os.path.join(root, 'c16cc')
+    open(cc, 'w').write(WRAPPER % {'ledger': ledger})
+    os.chmod(cc, 0o755)
+    cache = os.path.join(root, 'cache')
+    src = os.path.join(root, 'src')
+    os.makedirs(src)
+    env = {'PATH': '/usr/bin:/bin', 'HOME': root, 'SCCACHE_DIR': cache, 'SCCACHE_IDLE_TIMEOUT': '300',
+           'TMPDIR': root, 'SCCACHE_SERVER_PORT': '0'}
+    problems = []
+    info = {}
+    nsrc = [0]
+
+    def new_source(kind):
+        nsrc[0] += 1
+        p = os.path.join(src, 's%d.c' % nsrc[0])
+        body = 'int f%d(void){return %d;}\n' % (nsrc[0], nsrc[0])
+        if kind == 'ppfail':
+            body += '#error C16 preprocessor failure\n'
+        elif kind == 'ccfail':
+            body += 'int g%d(void){return undeclared_%d;}\n' % (nsrc[0], nsrc[0])
+        open(p, 'w').write(body)
+        return p
+
+    def client(path, sleep):
+        e = dict(env)
+        e['C16_SLEEP'] = sleep
+        return subprocess.Popen([binp, cc, '-c', path, '-o', path[:-2] + '.o'], env=e, cwd=src,
+                                stdout=subprocess.DEVNULL, stderr=subprocess.DEVNULL)
+
+    def wait_idle(secs):
+        """the ledger is balanced and has not changed for 0.5 s"""
+        t0 = time.time()
+        last = None
+        since = time.time()
+        while time.time() - t0 < secs:
+            mx, ent, lef, _ = read_ledger(ledger)
+            cur = (ent, lef)
+            if cur != last:
+                last = cur
+                since = time.time()
+            elif ent == lef and time.time() - since > 0.5:
+                return True
+            time.sleep(0.05)
+        return False
+
+    try:
+        # token count the server will use in a 3-CPU set: the same function, in the same CPU set
+        rc, out, _ = pipeline.sh(['taskset', '-c', '0-2', pipeline.harness_bin(HARNESS_BIN), 'ncpus'], input=b'()\n', timeout=60)
+        try:
+            tokens = sx.loads(out.strip().split('\n')[-1])[1]
+        except Exception:
+            return ['could not determine the token count: ' + out[-200:]], info
+        info['tokens'] = tokens
+        for attempt in range(5):
+            env['SCCACHE_SERVER_PORT'] = str(free_port())
+            r = subprocess.run(['taskset', '-c', '0-2', binp, '--start-server'], env=env, cwd=src,
+                               stdout=subprocess.PIPE, stderr=subprocess.PIPE, timeout=120)
+            if r.returncode == 0:
+                break
+        else:
+            return ['server did not start: ' + r.stderr.decode()[-300:]], info
+        pids = server_pids(cache)
+        if pids:
+            try:
+                info['server_cpus'] = len(os.sched_getaffinity(pids[0]))
+            except OSError:
+                pass
+
+        nbursts = 2 if tier == 'quick' else 6
+        total = killed = failing = 0
+        for b in range(nbursts):
+            n = rng.range(12, 40) if tier != 'quick' else (16 if b == 0 else rng.range(24, 40))
+            procs = []
+            for i in range(n):
+                kind = rng.weighted([('ok', 6), ('ppfail', 1), ('ccfail', 2), ('dup', 1)])
+                if kind == 'dup' and nsrc[0] > 0:
+                    path = os.path.join(src, 's%d.c' % rng.range(1, nsrc[0]))
+                else:
+                    path = new_source(kind)
+                if kind in ('ppfail', 'ccfail'):
+                    failing += 1
+                p = client(path, '0.05')
+                kill_at = time.time() + rng.range(20, 250) / 1000.0 if rng.chance(1, 4) else None
+                procs.append((p, kill_at))
+                total += 1
+            # clients killed mid-request
+            pending = [x for x in procs if x[1]]
+            while pending:
+                now = time.time()
+                for x in list(pending):
+                    if now >= x[1]:
+                        try:
+                            x[0].send_signal(signal.SIGKILL)
+                            killed += 1
+                        except OSError:
+                            pass
+                        pending.remove(x)
+                time.sleep(0.005)
+            hung = 0
+            for p, _ in procs:
+                try:
+                    p.wait(timeout=90 if not hung else 1)
+                except subprocess.TimeoutExpired:
+                    p.kill()
+                    hung += 1
+            if hung:
+                problems.append('burst %d: %d client(s) did not finish within 90 s (their requests never obtained a token)' % (b, hung))
+                return problems, info
+            if not wait_idle(60):
+                problems.append('compiler processes still running / ledger unbalanced 120 s after burst %d' % b)
+            mx, ent, lef, kam = read_ledger(ledger)
+            if mx > tokens:
+                problems.append('burst %d: %d compiler/preprocessor processes ran at once with %d job tokens (kinds %s)'
+                                % (b, mx, tokens, kam))
+        info.update(clients=total, killed=killed, failing=failing)
+        mx, ent, lef, _ = read_ledger(ledger)
+        info.update(max_concurrency=mx, processes=ent)
+
+        # saturating burst: full parallelism must be reachable again (no token lost to the history above)
+        reached = 0
+        for sleep in ('0.4', '1.5'):
+            open(ledger, 'w').close()
+            procs = [client(new_source('ok'), sleep) for _ in range(3 * tokens)]
+            hung = 0
+            for p in procs:
+                try:
+                    p.wait(timeout=120 if not hung else 1)
+                except subprocess.TimeoutExpired:
+                    p.kill()
+                    hung += 1
+            if hung:
+                problems.append('saturating burst: %d client(s) did not finish within 120 s (all tokens lost?)' % hung)
+                break
+            wait_idle(60)
+            mx2, ent2, lef2, _ = read_ledger(ledger)
+            reached = max(reached, mx2)
+            if mx2 > tokens:
+                problems.append('saturating burst: %d processes at once with %d tokens' % (mx2, tokens))
+            if mx2 >= tokens:
+                break
+        info['saturating_reached'] = reached
+        if reached < tokens:
+            problems.append('after the bursts only %d of %d processes can run at once: %d token(s) leaked'
+                            % (reached, tokens, tokens - reached))
+    finally:
+        try:
+            subprocess.run([binp, '--stop-server'], env=env, cwd=src, stdout=subprocess.DEVNULL, stderr=subprocess.DEVNULL, timeout=30)
+        except Exception:
+            pass
+        for pid in server_pids(cache):
+            try:
+                os.kill(pid, 9)
+            except OSError:
+                pass
+        shutil.rmtree(root, ignore_errors=True)
+    return problems, info
+
+
+def extra(rep, known):
+    ok, out = pipeline.build_repo_bins(REPO_BINS)
+    rep.oblige('build:sccache', ok, out[-2000:] if not ok else 'cargo build --offline --bin sccache, --cfg sccache_verif')
+    if not ok:
+        return
+    binp = pipeline.repo_bin('sccache')
+    rng = pipeline.Rng(rep.seed).fork('C16:e2e')
+    runs = 1 if rep.tier == 'quick' else 3
+    t0 = time.time()
+    allp = []
+    for i in range(runs):
+        problems, info = e2e_run(rep, binp, rng, rep.tier, i)
+        rep.traces += 1
+        rep.evaluations += info.get('clients', 0)
+        for k, v in info.items():
+            rep.count('e2e.%s=%s' % (k, v))
+        rep.notes.append('e2e run %d: %s' % (i, info))
+        for p in problems:
+            rep.violation('property', 'e2e', 'e2e run %d seed %d: %s' % (i, rep.seed, info), p)
+        allp += problems
+    rep.legs['e2e'] = dict(runs=runs, problems=len(allp), wall_s=round(time.time() - t0, 1))
+    rep.oblige('e2e:ledger-bound-and-no-leak', not allp, '; '.join(allp[:5]) if allp else 'max concurrency <= tokens in every burst; saturating burst reached the token count')
+    rep.rule.append('e2e: real sccache server under `taskset -c 0-2` (token count = util::num_cpus() evaluated by the harness in the '
+                    'same CPU set), bursts of 12-40 clients through a wrapper compiler that records enter/leave of the preprocessor '
+                    'run (-E) and the compile run in a flock-ed ledger and sleeps 50 ms; ~30% failing sources (#error / undeclared '
+                    'identifier), ~25% clients SIGKILLed 20-250 ms into the request; monitor: concurrency in the ledger <= tokens at '
+                    'every line; afterwards a saturating burst of 3*tokens clients must reach exactly the token count (retried once '
+                    'with longer sleeps before it is reported)')
